@@ -160,6 +160,30 @@ static inline _Bool sp_assigns_grown(struct vec_us A, struct vec_us B)
     if (i < B.n && B.e[i] != (i < A.n ? A.e[i] : SP_UNDEF)) return 0;
   return 1;
 }
+/* the logged clause consists of exactly the literals of `lits` that are undecided under A (as a set: order and repetitions
+ * are the implementation's business).  Structural, so it fixes the truth of the logged clause under EVERY assignment that
+ * extends A, not only under the ghost xt_sigma. */
+static inline _Bool sp_logged_open_part(struct vec_us A, struct vec_lit lits, struct xt_clause c)
+{
+  if (c.n > XT_MAXLITS) return 0;
+  for (U_t i = 0; i < XT_MAXLITS; i++)
+    if (i < c.n)
+    {
+      _Bool from = 0;
+      for (U_t j = 0; j < XT_MAXLITS; j++)
+        if (j < lits.n && lits.e[j].x == c.l[i].x && sp_val(A, lits.e[j]) == SP_UNDEF) from = 1;
+      if (!from) return 0;
+    }
+  for (U_t j = 0; j < XT_MAXLITS; j++)
+    if (j < lits.n && sp_val(A, lits.e[j]) == SP_UNDEF)
+    {
+      _Bool in = 0;
+      for (U_t i = 0; i < XT_MAXLITS; i++)
+        if (i < c.n && c.l[i].x == lits.e[j].x) in = 1;
+      if (!in) return 0;
+    }
+  return 1;
+}
 /* the whole postcondition of sat_core::new_clause(lits) at root level, computed in one pass (it is assumed at every call
  * site of the callers, so it must be cheap): A0/A1 the assigns vector before/after, n0/n1 the clause-log length before/after */
 static inline _Bool sp_new_clause_post(struct vec_us A0, struct vec_us A1, struct vec_lit lits, U_t n0, U_t n1, _Bool ret, unsigned int sigma)
@@ -167,7 +191,7 @@ static inline _Bool sp_new_clause_post(struct vec_us A0, struct vec_us A1, struc
   int st = sp_status(A0, lits);
   if (ret != (st != 0)) return 0;
   if (st == 3)
-    return n1 == n0 + 1 && sp_assigns_same(A0, A1) && (!sg_ext(sigma, A1) || sg_sat_clause(sigma, xt_cl[n0 < XT_MAXCL ? n0 : 0]) == sg_sat_lits(sigma, lits));
+    return n1 == n0 + 1 && sp_assigns_same(A0, A1) && sp_logged_open_part(A0, lits, xt_cl[n0 < XT_MAXCL ? n0 : 0]);
   if (st == 2)
   {
     struct smt_lit u = sp_unit_lit(A0, lits);
